@@ -552,7 +552,7 @@ func execStore(run *core.Run, p *plan) {
 					select {
 					case eD = <-doneD:
 					default:
-						if i < 3000 {
+						if i < 2000000 {
 							runtime.Gosched()
 							continue
 						}
@@ -569,7 +569,8 @@ func execStore(run *core.Run, p *plan) {
 				windowMu.Unlock()
 				run.Logf("client %d op%d write-during-delete-window: W1 %v, delete %v, W2 %v (W2 ran past the delete's guard: %v; entered before the guard: %v)", c, oi, e1, eD, e2, parked2, early)
 				if e1 == nil && eD == nil && e2 == nil && !early {
-					obs, err := sim.ReadCursors(id, storesim.FullRange, []storesim.SeriesField{{M: "wm", Tags: []model.Tag{{K: "a", V: "1"}, {K: "c", V: vic}}, Field: "f"}})
+					// through the query path: measurement and series come from the index
+					obs, err := sim.ReadIterators(id, storesim.FullRange, []string{"wm"})
 					key := fmt.Sprintf("wm,a=1,c=%s", vic)
 					if err != nil || len(obs[key]["f"]) != 1 {
 						windowFail.Store(fmt.Sprintf("client %d op%d: a write to %s was acknowledged after a DROP SERIES ... WHERE c = '%s' had completed (the write arrived while the delete was in flight), and its point cannot be read: got %v (err %v); the write ran past the delete's guard: %v", c, oi, key, vic, obs[key]["f"], err, parked2))
